@@ -101,8 +101,15 @@ pub(super) fn normalize_frequencies(frequencies: &Frequencies) -> Frequencies {
 
     if normalized_sum < SCALING_FACTOR {
         normalized_frequencies[max_index] += SCALING_FACTOR - normalized_sum;
-    } else if normalized_sum > SCALING_FACTOR {
-        normalized_frequencies[max_index] -= normalized_sum - SCALING_FACTOR;
+    } else {
+        // Raising rare symbols to a frequency of 1 can add up to more than the most frequent symbol
+        // can give back: take the excess from the (currently) largest frequencies, one at a time.
+        // No frequency drops below 1 because there are fewer symbols than `SCALING_FACTOR`.
+        for _ in SCALING_FACTOR..normalized_sum {
+            // SAFETY: `normalized_frequencies` is nonempty.
+            let g = normalized_frequencies.iter_mut().max().unwrap();
+            *g -= 1;
+        }
     }
 
     normalized_frequencies
